@@ -83,7 +83,8 @@ def gen_instance(rng, maxvars):
         m = 3 if rng.random() < 0.35 else 2          # three workers: also more workers than jobs
         nj = rng.randint(1, 2) if m == 3 else rng.randint(1, 3)
         lengths = [rng.randint(1, 2) for _ in range(nj)]
-        inst = {"lengths": lengths, "m": m, "log_trick": rng.random() < 0.5}
+        inst = {"lengths": lengths, "m": m, "log_trick": rng.random() < 0.5,
+                "lengths_form": rng.choice(["list", "list", "tuple", "dict", "odict", "ddict"])}
         mode = rng.choice(["default", "strict"])
         B = rng.choice([1, 1, 2]) if mode == "default" else rng.choice([1, 2])
         A = None if mode == "default" else B * max(lengths) + 1
@@ -107,6 +108,11 @@ def stress_instances(thorough):
     """hand-picked larger instances where slack sizing matters (every set of a 3-fold covered element is needed)"""
     out = [{"cls": "SetCover", "inst": {"U": [0, 1, 2, 3], "V": [[0, 1], [0, 2], [0, 3]], "weights": None, "log_trick": True},
             "A": 2, "B": 1, "strict": True, "default": True, "big": True}]
+    # set covers in which every minimum cover covers some element twice, without the log trick (one ancilla per multiplicity)
+    out.append({"cls": "SetCover", "inst": {"U": [0, 1, 2], "V": [[0, 1], [1, 2]], "weights": None, "log_trick": False},
+                "A": 3, "B": 2, "strict": True, "default": False})
+    out.append({"cls": "SetCover", "inst": {"U": ["u0", "u1", "u2"], "V": [["u0", "u1"], ["u1", "u2"], ["u1"]], "weights": None, "log_trick": False},
+                "A": 2, "B": 1, "strict": True, "default": True})
     # BILP instances in which a linear coefficient cancels exactly under the DEFAULT weights (A = 2, B = 1)
     out.append({"cls": "BILP", "inst": {"c": [2, 1], "S": [[1, 0]], "b": [1]}, "A": 4, "B": 1, "strict": True, "default": False})
     out.append({"cls": "BILP", "inst": {"c": [1, 2, 0], "S": [[0, 1, 0], [1, 0, 1]], "b": [1, 1]}, "A": 4, "B": 1, "strict": True, "default": False})
@@ -133,7 +139,13 @@ def build(case):
     if cls == "BILP":
         return problems.BILP(list(inst["c"]), [list(r) for r in inst["S"]], list(inst["b"]))
     if cls == "JobSequencing":
-        return problems.JobSequencing(list(inst["lengths"]), inst["m"], log_trick=inst["log_trick"])
+        # the job lengths as every documented container: list, tuple, dict - and dict subclasses
+        import collections
+        L_ = list(inst["lengths"])
+        form_ = inst.get("lengths_form", "list")
+        arg_ = {"list": L_, "tuple": tuple(L_), "dict": dict(enumerate(L_)), "odict": collections.OrderedDict(enumerate(L_)),
+                "ddict": collections.defaultdict(int, enumerate(L_))}[form_]
+        return problems.JobSequencing(arg_, inst["m"], log_trick=inst["log_trick"])
     if cls == "NumberPartitioning":
         return problems.NumberPartitioning(tuple(inst["S"]) if inst["as_tuple"] else list(inst["S"]))
     return problems.AlternatingSectorsChain(inst["N"], inst["chain_length"], inst["min_strength"], inst["max_strength"])
